@@ -1403,6 +1403,9 @@ def replay(ctx, failure):
         finally:
             C15reuse.cleanup()
     inp = failure["input"]
+    if str(failure.get("kind", "")).startswith("printers:"):
+        from props import C15print
+        return C15print.replay(ctx, failure)["reproduced"]
     kind = inp.get("kind")
     if kind == "penalty":
         return penalty_case(G.float_of_frac(inp["x"])) is not None
